@@ -125,14 +125,16 @@ Section Decode.
   Definition address_from_bytes_unchecked (bs : list Z) : outcome C18.Model.address :=
     C18.Model.bytes_to_address parse_type_8_unchecked bs.
 
-  (* ---- base58: third-party crate = oracle ---- *)
+  (* ---- base58: a parameter here; instantiated with Base58.v in Base58Byron.v ---- *)
   Variable b58_encode : list Z -> list Z.
-  Variable b58_decode : list Z -> option (list Z).
+  (* FromBase58::from_base58: bytes, FromBase58Error, or a panic (see Base58.v) *)
+  Variable b58_decode : list Z -> outcome (list Z).
   Definition to_base58 (a : byron) : list Z := b58_encode (byron_to_vec a).
   Definition from_base58 (s : list Z) : outcome byron :=
     match b58_decode s with
-    | Some bs => from_bytes bs
-    | None => Err C18.Model.E_BAD_BASE58
+    | Ok bs => from_bytes bs
+    | Err _ => Err C18.Model.E_BAD_BASE58
+    | Panic p => Panic p
     end.
 End Decode.
 
